@@ -332,6 +332,7 @@ func checkC19(ctx *Ctx, r *Report, tier string) {
 	}
 	checkDCOrientationV1(ctx, r)
 	checkLeafCornerLattice(ctx, r)
+	checkOctreePruning(ctx, r)
 	checkDCV2(ctx, r)
 	n := 0
 	for _, f := range axisLint(ctx, "render/dc") {
@@ -978,4 +979,99 @@ func rebuildRaw(t *Term, f func(*Term) *Term) *Term {
 
 func hasFloatOp(t *Term) bool {
 	return len(findSub(t, func(x *Term) bool { return x.Op == "f+" || x.Op == "f*" || x.Op == "f/" || x.Op == "fneg" })) > 0
+}
+
+// ---------------------------------------------------------------- K7: octree pruning
+
+// checkOctreePruning: Populate discards a node (and with it every leaf below) when an integer
+// test on its lattice range says it lies outside the sampled volume. relToSDF maps the lattice
+// indices [0, cellCounts] onto the bounding box, so a node [m, m+size] that overlaps that range
+// on every axis must never be discarded: its cells carry surface. The test is read as a
+// closed-form condition from the source and evaluated (in the checker, integer arithmetic
+// with Go's truncating division) on every octree configuration with up to 16 cells per axis:
+// mesh size M in {2,4,8,16}, cell count c in 1..M, node size a power of two, node origin a
+// multiple of its size. Exhaustive over that finite family, one axis varied at a time.
+func checkOctreePruning(ctx *Ctx, r *Report) {
+	fn := ctx.ssaFunc("render/dc", "(*dcOctree).Populate")
+	key := "Populate|never-discards-a-node-that-overlaps-the-sampled-lattice"
+	if fn == nil {
+		r.undecided("K7", key, 0, "not found")
+		return
+	}
+	ev := newEval(ctx, "computeOctreeLeaf")
+	ev.evalRoot(fn)
+	recv := paramName(fn, 0)
+	var prune *Term
+	for _, alt := range ev.RootRets {
+		if alt.Cond == nil || alt.Cond.IsConst() {
+			continue
+		}
+		as := map[string]bool{}
+		alt.Cond.Atoms(as)
+		if as[recv+".cellCounts.X"] && len(conjuncts(alt.Cond)) <= 1 {
+			prune = alt.Cond
+			break
+		}
+	}
+	if prune == nil {
+		// no early return at all: nothing is ever discarded
+		r.check("K7", key, fn.Pos(), true, "no pruning return found: every node is populated")
+		r.floor("K7", 1)
+		return
+	}
+	atoms := map[string]bool{}
+	prune.Atoms(atoms)
+	known := map[string]bool{recv + ".meshSize": true, recv + ".size": true}
+	for _, ax := range []string{"X", "Y", "Z"} {
+		known[recv+".minOffset."+ax] = true
+		known[recv+".cellCounts."+ax] = true
+	}
+	for a := range atoms {
+		if !known[a] {
+			r.undecided("K7", key, fn.Pos(), "the pruning test depends on "+a+", which the lattice model does not bind")
+			return
+		}
+	}
+	n, bad := 0, 0
+	detail := ""
+	ri := func(v int64) *big.Rat { return big.NewRat(v, 1) }
+	for axis, ax := range []string{"X", "Y", "Z"} {
+		for _, M := range []int64{2, 4, 8, 16} {
+			for c := int64(1); c <= M; c++ {
+				for s := int64(2); s <= M; s *= 2 {
+					for m := int64(0); m+s <= M; m += s {
+						env := map[string]*big.Rat{recv + ".meshSize": ri(M), recv + ".size": ri(s)}
+						for k, o := range []string{"X", "Y", "Z"} {
+							if k == axis {
+								env[recv+".minOffset."+o] = ri(m)
+								env[recv+".cellCounts."+o] = ri(c)
+							} else {
+								env[recv+".minOffset."+o] = ri(0)
+								env[recv+".cellCounts."+o] = ri(M)
+							}
+						}
+						n++
+						overlaps := m < c
+						pruned := evalT(prune, env).Sign() != 0
+						if overlaps && pruned {
+							bad++
+							if bad <= 3 {
+								detail += fmt.Sprintf(" axis %s: mesh %d, %d cells, node [%d,%d] is discarded although cells %d..%d are sampled;", ax, M, c, m, m+s, m, minI64(m+s, c))
+							}
+						}
+					}
+				}
+			}
+		}
+	}
+	r.Counts["octree_configurations"] = n
+	r.check("K7", key, fn.Pos(), bad == 0, fmt.Sprintf("%d configurations (mesh ≤ 16 per axis) evaluated on the closed form of the pruning test, %d wrongly discarded;%s", n, bad, detail))
+	r.floor("K7", 1)
+}
+
+func minI64(a, b int64) int64 {
+	if a < b {
+		return a
+	}
+	return b
 }
